@@ -695,7 +695,11 @@ def run_world(case, tape, ctx, w):
                            wire(b.bufnum)])]
         if kind == 'bufcons':
             _, bid, cnt, frames, ch = op
-            bs = sbuf.Buffer.new_consecutive(cnt, frames, ch, s)
+            # (the documented default for the server argument is the
+            # default server)
+            bs = sbuf.Buffer.new_consecutive(
+                cnt, frames, ch, None if s is ssrv.Server.default
+                and bid % 2 else s)
             exp = []
             base = bs[0].bufnum
             for i, b in enumerate(bs):
@@ -712,10 +716,34 @@ def run_world(case, tape, ctx, w):
         if kind == 'bfile':
             sub = op[1]
             b = real.get(op[2])
-            if b is None or not model[op[2]]['live']:
+            if b is None:
+                return []
+            path = '/tmp/verif-sound.aiff'
+            if not model[op[2]]['live']:
+                # a freed buffer owns no number any more: using it is
+                # refused, nothing is sent (least of all for buffer 0)
+                if b.bufnum is not None:
+                    return []       # (stale object after free_all)
+                d = real.get(op[3]) if sub == 'copy' else None
+                if sub == 'copy' and (d is None or d.bufnum is None):
+                    return []
+                calls = {
+                    'cue': lambda: b.cue(path, 0),
+                    'read': lambda: b.read(path),
+                    'write': lambda: b.write(path),
+                    'close': lambda: b.close(),
+                    'copy': lambda: b.copy_data(d),
+                    'normalize': lambda: b.normalize(),
+                    'sine1': lambda: b.sine1([1])}
+                try:
+                    calls[sub]()
+                    viol.add('C17-3', 'freed-buffer-used',
+                             f'{sub} on a freed buffer did not raise')
+                except sbuf.BufferException:
+                    pass
+                bump('F10-freed-buffer-' + sub)
                 return []
             num = model[op[2]]['id']
-            path = '/tmp/verif-sound.aiff'
             bump('buffer-' + sub)
             if sub == 'cue':
                 # Server Command Reference: /b_read bufnum path fileStart
